@@ -34,7 +34,7 @@ PROPS = {
     'C11': dict(streams=[('scaleb', G.gen_scaleb, 300000, 2000000), ('logb', G.gen_logb, 40000, 400000)]),
     'C12': dict(streams=[('nan', G.gen_nan, 300000, 1500000), ('invalid', G.gen_invalid_sources, 20000, 200000)]),
     'C13': dict(streams=[('class', G.gen_class, 60000, 600000), ('noncanon', G.gen_noncanon_ops, 80000, 1000000), ('consts', G.gen_consts, 5000, 50000)]),
-    'C14': dict(streams=[('status', G.gen_all_ops_status, 240000, 3000000)], cross_entry=True),
+    'C14': dict(streams=[('status', G.gen_all_ops_status, 420000, 4000000)], cross_entry=True),
     'C15': dict(streams=[('sweep', G.gen_c15, 400000, 6000000), ('strings', G.gen_parse, 100000, 1500000)], panic_only=True, api_registry=True, level='other',
                 explanation='partial: exploration of every public entry point under catch_unwind (debug-assertion and release builds) plus an API registry check; absence of panics in the Rust code is not proved (the model does not transcribe it)'),
     'C16': dict(streams=[('minmax', G.gen_minmax, 300000, 2000000)]),
